@@ -20,14 +20,17 @@
 #include "explicit_p.h"
 #include "stir/recon_buildblock/ProjectorByBinPairUsingProjMatrixByBin.h"
 #include "stir/recon_buildblock/ForwardProjectorByBin.h"
+#include "stir/recon_buildblock/ForwardProjectorByBinUsingProjMatrixByBin.h"
 #include "stir/recon_buildblock/BackProjectorByBin.h"
 #include "stir/recon_buildblock/ProjMatrixByBinUsingInterpolation.h"
+#include "stir/recon_buildblock/ForwardProjectorByBinUsingRayTracing.h"
 #include "stir/recon_buildblock/DataSymmetriesForBins.h"
 #include "stir/RelatedViewgrams.h"
 #include "stir/ViewSegmentNumbers.h"
 #include "stir/ExamInfo.h"
 #include "stir/ProjDataInMemory.h"
 #include <sstream>
+#include <iostream>
 #include <set>
 
 using namespace vf;
@@ -42,9 +45,9 @@ tol(const char* name, double dflt)
   return e ? std::atof(e) : dflt;
 }
 // calibrated tolerances (see props.d/C04.py); all relative to the maximum magnitude of the compared object
-const double TOL_EXPLICIT = tol("C04_TOL_EXPLICIT", 1e-4); // projector output vs explicit P (float accumulation vs double)
-const double TOL_ADJOINT = tol("C04_TOL_ADJOINT", 1e-4);   // |<Ax,y> - <x,A^T y>| <= tol * ||Ax|| ||y||
-const double TOL_LINEAR = tol("C04_TOL_LINEAR", 1e-4);
+const double TOL_EXPLICIT = tol("C04_TOL_EXPLICIT", 2e-5); // projector output vs explicit P (float accumulation vs double)
+const double TOL_ADJOINT = tol("C04_TOL_ADJOINT", 1e-5);   // |<Ax,y> - <x,A^T y>| <= tol * || |A||x| || ||y||  (see abs_forward_norm)
+const double TOL_LINEAR = tol("C04_TOL_LINEAR", 2e-5);
 const double TOL_PIECES = tol("C04_TOL_PIECES", 1e-5);
 
 struct Setup
@@ -97,6 +100,12 @@ make_case_matrix(const json& c, int cache_mode, bool with_sym)
   return vp::make_matrix(o, on(0), on(1), on(2), on(3), on(4), cm != 0, cm == 1);
 }
 
+struct BadRow
+{
+  std::string msg;
+};
+std::string show_bin(const Bin& b);
+
 //! explicit sparse P from an (already set up) matrix: one request per bin
 vp::ExplicitP
 build_P(const shared_ptr<ProjMatrixByBin>& m, const shared_ptr<const ProjDataInfo>& pdi, const shared_ptr<const VoxelsOnCartesianGrid<float>>& image)
@@ -115,9 +124,31 @@ build_P(const shared_ptr<ProjMatrixByBin>& m, const shared_ptr<const ProjDataInf
     {
       const Bin& b = P.bins[i];
       m->get_proj_matrix_elems_for_one_bin(row, Bin(b.segment_num(), b.view_num(), b.axial_pos_num(), b.tangential_pos_num(), b.timing_pos_num()));
+      // the projectors index image[z][y][x] with z range-checked only: an element outside the x/y range is an out-of-bounds access
+      for (auto it = row.begin(); it != row.end(); ++it)
+        if (it->coord2() < P.imin[2] || it->coord2() > P.imax[2] || it->coord3() < P.imin[3] || it->coord3() > P.imax[3])
+          throw BadRow{ cat("matrix row of ", show_bin(b), " has an element at (z,y,x)=(", it->coord1(), ",", it->coord2(), ",", it->coord3(), "), outside the image x/y range y ", P.imin[2], "..",
+                            P.imax[2], " x ", P.imin[3], "..", P.imax[3], " (value ", it->get_value(), "): the projectors would read/write outside the image") };
       P.rows[i] = vp::ExplicitP::clip_row(P, row, &P.num_clipped);
     }
   return P;
+}
+
+//! sqrt( sum_{b in mask} (sum_i |P_bi| |x_i|)^2 ): magnitude of the forward projection without cancellation (conditioning of <Ax,y>)
+double
+abs_forward_norm(const vp::ExplicitP& P, const std::vector<double>& x, const std::vector<char>* mask)
+{
+  double s2 = 0;
+  for (std::size_t b = 0; b < P.rows.size(); ++b)
+    {
+      if (mask && !(*mask)[b])
+        continue;
+      double acc = 0;
+      for (auto& e : P.rows[b])
+        acc += std::fabs(e.second) * std::fabs(x[std::size_t(e.first)]);
+      s2 += acc * acc;
+    }
+  return std::sqrt(s2);
 }
 
 double
@@ -298,9 +329,10 @@ check_explicit_and_linear(Ctx& X)
   // whole-data adjoint identity
   {
     const double lhs = dot(Ax, y), rhs = dot(x, Aty);
-    const double sc = std::max(norm2(Ax) * norm2(y), 1e-30);
-    stats().maxi("(2) whole data |<Ax,y>-<x,A^T y>| / (|Ax||y|)", std::fabs(lhs - rhs) / sc);
-    VF_CHECK(std::fabs(lhs - rhs) <= TOL_ADJOINT * sc, "(2) adjoint identity violated for the whole data: <Ax,y>=", lhs, " <x,A^T y>=", rhs, " |Ax||y|=", sc, " ", X.desc);
+    // scale: |A||x| instead of |Ax| (float accumulation errors are relative to the sum without cancellation)
+    const double sc = std::max(abs_forward_norm(X.P, x, nullptr) * norm2(y), 1e-30);
+    stats().maxi("(2) whole data |<Ax,y>-<x,A^T y>| / (|A||x| |y|)", std::fabs(lhs - rhs) / sc);
+    VF_CHECK(std::fabs(lhs - rhs) <= TOL_ADJOINT * sc, "(2) adjoint identity violated for the whole data: <Ax,y>=", lhs, " <x,A^T y>=", rhs, " |A||x| |y|=", sc, " ", X.desc);
   }
   // linearity of A^T
   {
@@ -395,11 +427,12 @@ check_subsets(Ctx& X)
             ny += y[i] * y[i];
           }
       const double rhs = dot(x, vb);
-      const double sc = std::max(std::sqrt(nAx) * std::sqrt(ny), 1e-30);
+      (void)nAx;
+      const double sc = std::max(abs_forward_norm(X.P, x, &mask) * std::sqrt(ny), 1e-30);
       if (inside > 0)
         {
-          stats().maxi("(2) subsets |<Ax,y>-<x,A^T y>| / (|Ax||y|)", std::fabs(lhs - rhs) / sc);
-          VF_CHECK(std::fabs(lhs - rhs) <= TOL_ADJOINT * sc, "(2) adjoint identity violated on subset ", k, "/", n, ": <Ax,y>=", lhs, " <x,A^T y>=", rhs, " |Ax||y|=", sc, " ", X.desc);
+          stats().maxi("(2) subsets |<Ax,y>-<x,A^T y>| / (|A||x| |y|)", std::fabs(lhs - rhs) / sc);
+          VF_CHECK(std::fabs(lhs - rhs) <= TOL_ADJOINT * sc, "(2) adjoint identity violated on subset ", k, "/", n, ": <Ax,y>=", lhs, " <x,A^T y>=", rhs, " |A||x| |y|=", sc, " ", X.desc);
         }
       else
         VF_CHECK(max_abs(vb) == 0., "(2) empty subset ", k, "/", n, " back projects to a non-zero image ", X.desc);
@@ -456,6 +489,7 @@ check_groups(Ctx& X)
           X.fwd->forward_project(rv);
           const RelatedViewgrams<float> ry = pdy->get_related_viewgrams(vs, X.sym, false, k);
           double lhs = 0, nAx = 0, ny = 0;
+          std::vector<char> gmask(X.P.bins.size(), 0);
           auto iy = ry.begin();
           for (auto it = rv.begin(); it != rv.end(); ++it, ++iy)
             {
@@ -468,6 +502,7 @@ check_groups(Ctx& X)
                     const long bi = X.P.bin_index(b);
                     VF_CHECK(group_of_bin[std::size_t(bi)] == -1, show_bin(b), " occurs in two related-viewgram groups ", X.desc);
                     group_of_bin[std::size_t(bi)] = ngroups;
+                    gmask[std::size_t(bi)] = 1;
                     const double v = (*it)[a][t];
                     VF_CHECK(std::fabs(v - Ax[std::size_t(bi)]) <= TOL_PIECES * scf, "(4) related-viewgram call gives ", v, " at ", show_bin(b), ", whole-data projection ", Ax[std::size_t(bi)],
                              " ", X.desc);
@@ -483,10 +518,11 @@ check_groups(Ctx& X)
           const std::vector<double> vb = X.P.image_to_vec(*out);
           {
             const double rhs = dot(x, vb);
-            const double sc = std::max(std::sqrt(nAx) * std::sqrt(ny), 1e-30);
-            stats().maxi("(2) related groups |<Ax,y>-<x,A^T y>| / (|Ax||y|)", std::fabs(lhs - rhs) / sc);
+            (void)nAx;
+            const double sc = std::max(abs_forward_norm(X.P, x, &gmask) * std::sqrt(ny), 1e-30);
+            stats().maxi("(2) related groups |<Ax,y>-<x,A^T y>| / (|A||x| |y|)", std::fabs(lhs - rhs) / sc);
             VF_CHECK(std::fabs(lhs - rhs) <= TOL_ADJOINT * sc, "(2) adjoint identity violated on the related-viewgram group of view ", view, " segment ", seg, " TOF ", k, " (", rv.get_num_viewgrams(),
-                     " viewgrams): <Ax,y>=", lhs, " <x,A^T y>=", rhs, " |Ax||y|=", sc, " ", X.desc);
+                     " viewgrams): <Ax,y>=", lhs, " <x,A^T y>=", rhs, " |A||x| |y|=", sc, " ", X.desc);
           }
           if (keep.size() < 2)
             {
@@ -513,6 +549,7 @@ check_groups(Ctx& X)
                 continue;
               X.fwd->forward_project(sub, a0, a1, t0, t1);
               double l2 = 0, nA2 = 0, ny2 = 0;
+              std::vector<char> rmask(X.P.bins.size(), 0);
               auto iy2 = ry.begin();
               RelatedViewgrams<float> ycut = ry; // y restricted to the sub-range (what back_project with a range uses)
               auto ic = ycut.begin();
@@ -526,6 +563,7 @@ check_groups(Ctx& X)
                       if (in)
                         {
                           const double w = Ax[std::size_t(X.P.bin_index(b))];
+                          rmask[std::size_t(X.P.bin_index(b))] = 1;
                           VF_CHECK(std::fabs(v - w) <= TOL_PIECES * scf, "(4) sub-range call ax ", a0, "..", a1, " tang ", t0, "..", t1, " gives ", v, " at ", show_bin(b), ", whole-data projection ", w,
                                    " ", X.desc);
                           l2 += v * double((*iy2)[a][t]);
@@ -544,10 +582,11 @@ check_groups(Ctx& X)
               X.bck->get_output(*o2);
               const std::vector<double> vb2 = X.P.image_to_vec(*o2);
               const double rhs2 = dot(x, vb2);
-              const double sc2 = std::max(std::sqrt(nA2) * std::sqrt(ny2), 1e-30);
-              stats().maxi("(2) sub-ranges |<Ax,y>-<x,A^T y>| / (|Ax||y|)", std::fabs(l2 - rhs2) / sc2);
+              (void)nA2;
+              const double sc2 = std::max(abs_forward_norm(X.P, x, &rmask) * std::sqrt(ny2), 1e-30);
+              stats().maxi("(2) sub-ranges |<Ax,y>-<x,A^T y>| / (|A||x| |y|)", std::fabs(l2 - rhs2) / sc2);
               VF_CHECK(std::fabs(l2 - rhs2) <= TOL_ADJOINT * sc2, "(2) adjoint identity violated on sub-range ax ", a0, "..", a1, " tang ", t0, "..", t1, " of the group of view ", view, " segment ", seg,
-                       " TOF ", k, ": <Ax,y>=", l2, " <x,A^T y>=", rhs2, " |Ax||y|=", sc2, " ", X.desc);
+                       " TOF ", k, ": <Ax,y>=", l2, " <x,A^T y>=", rhs2, " |A||x| |y|=", sc2, " ", X.desc);
               // the same back projection through whole viewgrams that are zero outside the sub-range
               X.bck->start_accumulating_in_new_target();
               X.bck->back_project(ycut);
@@ -600,6 +639,88 @@ check_groups(Ctx& X)
   return Result::pass();
 }
 
+// ---- clause 5 experiment (calibration only, env C04_SIDDON=1): on-the-fly Siddon projector vs matrix projector -----------
+// Documented domain of ForwardProjectorByBinUsingRayTracing: cylindrical data, even number of views, zero view offset,
+// x/y voxel size >= tangential sampling, z voxel size = axial sampling or half of it, circular FOV ~1 voxel smaller.
+void
+siddon_experiment(Ctx& X)
+{
+  const ProjDataInfo& p = *X.S.pdi;
+  if (X.S.sc->get_scanner_geometry() != "Cylindrical" || p.is_tof_data() || p.get_num_views() % 2 != 0 || std::fabs(p.get_phi(Bin(0, 0, 0, 0))) > 1e-4)
+    return;
+  const int zdiv = X.c["image"]["z_div"].get<int>();
+  const auto vs = X.S.img->get_voxel_size();
+  const float samp = p.get_sampling_in_s(Bin(0, 0, 0, 0));
+  if (zdiv > 2 || samp > vs.x() + 1e-3 || samp > vs.y() + 1e-3)
+    return;
+  shared_ptr<ForwardProjectorByBinUsingRayTracing> fs(new ForwardProjectorByBinUsingRayTracing());
+  vp::MatrixOpts o; // 1 LOR, cylindrical FOV
+  shared_ptr<ProjMatrixByBin> m = vp::make_matrix(o, true, true, true, true, true, true, true);
+  shared_ptr<ForwardProjectorByBin> fm(new ForwardProjectorByBinUsingProjMatrixByBin(m));
+  try
+    {
+      fs->set_up(X.S.pdi, X.S.img);
+      fm->set_up(X.S.pdi, X.S.img);
+    }
+  catch (const std::exception&)
+    {
+      stats().count("siddon: set_up rejected");
+      return;
+    }
+  std::vector<double> x;
+  auto im = X.new_img();
+  vg::fill_random(*im, X.c["seed_x"].get<uint64_t>() + 99, 0.1, 1.);
+  auto p1 = X.new_pd(), p2 = X.new_pd();
+  try
+    {
+      fs->forward_project(*p1, *im);
+    }
+  catch (const std::exception& e)
+    {
+      stats().count(std::string("siddon: forward_project threw: ") + std::string(e.what()).substr(0, 60));
+      return;
+    }
+  fm->forward_project(*p2, *im);
+  const std::vector<double> a = X.P.projdata_to_vec(*p1), b = X.P.projdata_to_vec(*p2);
+  const double sc = std::max(max_abs(b), 1e-30);
+  CartesianCoordinate3D<int> imin, imax;
+  X.S.img->get_regular_range(imin, imax);
+  const double fovrad = std::min(std::min(imax.x(), -imin.x()) * vs.x(), std::min(imax.y(), -imin.y()) * vs.y());
+  double worst_in = 0, worst_all = 0;
+  long n_in = 0, n_bad = 0;
+  for (std::size_t i = 0; i < a.size(); ++i)
+    {
+      const double d = std::fabs(a[i] - b[i]) / sc;
+      worst_all = std::max(worst_all, d);
+      if (std::fabs(p.get_s(X.P.bins[i])) <= fovrad - 2. * std::max(vs.x(), vs.y()))
+        {
+          ++n_in;
+          worst_in = std::max(worst_in, d);
+          if (d > 1e-3)
+            ++n_bad;
+        }
+    }
+  if (std::getenv("C04_SIDDON_DEBUG") && worst_in > std::atof(std::getenv("C04_SIDDON_DEBUG")))
+    {
+      std::size_t w = 0;
+      double wd = 0;
+      for (std::size_t i = 0; i < a.size(); ++i)
+        if (std::fabs(p.get_s(X.P.bins[i])) <= fovrad - 2. * std::max(vs.x(), vs.y()) && std::fabs(a[i] - b[i]) > wd)
+          {
+            wd = std::fabs(a[i] - b[i]);
+            w = i;
+          }
+      std::cerr << "SIDDON worst " << worst_in << " at " << show_bin(X.P.bins[w]) << " siddon " << a[w] << " matrix " << b[w] << " scale " << sc << " case " << X.c.dump() << "\n";
+    }
+  stats().count("siddon: cases compared");
+  stats().count("siddon: bins well inside both FOVs", n_in);
+  stats().count("siddon: bins well inside both FOVs differing by > 1e-3 max", n_bad);
+  stats().maxi("siddon: max rel diff, bins >= 2 voxels inside the FOV", worst_in);
+  stats().maxi("siddon: max rel diff, all bins", worst_all);
+  if (n_in > 0 && n_bad == 0)
+    stats().count("siddon: cases agreeing to 1e-3 inside the FOV");
+}
+
 Result
 check(const json& c)
 {
@@ -639,7 +760,14 @@ check(const json& c)
   X.fwd = X.pair->get_forward_projector_sptr();
   X.bck = X.pair->get_back_projector_sptr();
   X.sym.reset(X.pair->get_symmetries_used()->clone());
-  X.P = build_P(mref, X.S.pdi, X.S.img);
+  try
+    {
+      X.P = build_P(mref, X.S.pdi, X.S.img);
+    }
+  catch (const BadRow& e)
+    {
+      return Result::fail(e.msg + cat(" [", interp ? "interpolation" : "ray tracing", " matrix, image ", X.S.img->get_x_size(), "x", X.S.img->get_y_size(), "]"));
+    }
   const json& sy = c["sym"];
   X.desc = cat("[", interp ? "interpolation" : "ray tracing", " matrix, sym=", sy[0].get<int>(), sy[1].get<int>(), sy[2].get<int>(), sy[3].get<int>(), sy[4].get<int>(), " cache=", c["cache"].get<int>(),
                interp ? "" : cat(" lors=", c["lors"].get<int>(), " cylFOV=", c["cyl_fov"].get<bool>()), " ", X.S.sc->get_scanner_geometry(), " bins=", X.P.bins.size(), " voxels=", X.P.nvox(),
@@ -699,10 +827,59 @@ check(const json& c)
       stats().count("statistic: rows compared with the symmetry-free matrix", long(Pp.rows.size()));
     }
 
+  if (std::getenv("C04_SIDDON"))
+    siddon_experiment(X);
   C04_DO(check_explicit_and_linear(X));
   C04_DO(check_subsets(X));
   C04_DO(check_groups(X));
   return Result::pass();
+}
+
+// KNOWN FINDING C04-F1 (work/notes/C04_findings.md): ProjMatrixByBinUsingRayTracing with num_tangential_LORs > 1 asks
+// ProjDataInfo::get_sampling_in_s(bin), whose default implementation evaluates get_s at tangential positions +-1;
+// for BlocksOnCylindrical/Generic data get_s goes through the (view, tangential position) -> detector pair table, which
+// only covers -(N/2)+1 .. N/2: for a bin at the edge of a (nearly) full tangential range the table is indexed out of
+// range (assertion in this build, out-of-bounds read in a Release build).  Excluded narrowly: blocks geometry AND
+// more than one tangential LOR AND a tangential range that touches the table range.
+inline bool
+no_exclude()
+{
+  static const bool v = std::getenv("VERIF_NO_EXCLUDE") != nullptr;
+  return v;
+}
+bool
+in_known_class(const json& c)
+{
+  if (c["matrix"].get<std::string>() != "rt" || c["lors"].get<int>() <= 1)
+    return false;
+  const json& sc = c["scanner"];
+  if (sc.value("geometry", std::string("Cylindrical")) != "BlocksOnCylindrical")
+    return false;
+  const int N = sc["ndet"].get<int>();
+  const int tang = c["pdi"]["tang"].get<int>();
+  const int cut = c["pdi"]["trim"].contains("tang_cut") && tang > 2 * c["pdi"]["trim"]["tang_cut"].get<int>() + 1 ? c["pdi"]["trim"]["tang_cut"].get<int>() : 0;
+  const int mn = -(tang / 2) + cut, mx = -(tang / 2) + tang - 1 - cut;
+  return mn - 1 < -(N / 2) + 1 || mx + 1 > N / 2;
+}
+// KNOWN FINDING C04-F2 (work/notes/C04_findings.md): ProjMatrixByBinUsingInterpolation limits the voxels of a basic row
+// to the symmetric part of the x range and of the y range SEPARATELY; with do_symmetry_90degrees_min_phi the row is then
+// transformed by an x<->y swap, which for an image with different x and y sizes yields elements outside the image
+// (x/y are not range-checked by the projectors: out-of-bounds access, assertion in this build).
+bool
+in_known_class_2(const json& c)
+{
+  return c["matrix"].get<std::string>() == "interp" && c["image"]["nx"].get<int>() != c["image"]["ny"].get<int>() && c["sym"][0].get<int>() != 0;
+}
+std::string
+known_signature(const json& c)
+{
+  if (no_exclude())
+    return "";
+  if (in_known_class(c))
+    return "C04:blocks:tangential-LORs>1:tangential-range-reaches-detector-pair-table-edge";
+  if (in_known_class_2(c))
+    return "C04:interpolation-matrix:sym90:image-nx!=ny";
+  return "";
 }
 
 // ---- generator -----------------------------------------------------------------------------------------------
@@ -718,16 +895,32 @@ gen(Src& s, int size)
   so.allow_tof = true;
   so.allow_blocks = !interp; // ProjMatrixByBinUsingInterpolation "needs ProjDataInfoCylindrical for jacobian" (a cylindrical scanner)
   so.allow_tilt = true;
+  static const bool siddon_bias = std::getenv("C04_SIDDON") != nullptr; // calibration runs of the clause-5 experiment only
+  if (siddon_bias)
+    so.allow_blocks = so.allow_tof = so.allow_tilt = false;
+  // bias (not a restriction): half of the cases get the class in which all symmetries can be active (no view offset,
+  // views a multiple of 4, non-TOF), and very small rings are re-drawn most of the time
+  const bool want_blocks = so.allow_blocks && s.chance(1, 4);
+  so.allow_blocks = want_blocks;
+  const bool want_full_sym = !want_blocks && s.coin();
+  const int min_ndet = s.coin() ? 16 : 8;
   json scj;
   shared_ptr<Scanner> sc;
-  for (int tries = 0; tries < 20; ++tries)
+  for (int tries = 0; tries < 40; ++tries)
     {
       scj = vg::gen_scanner(s, so);
-      // BlocksOnCylindrical: the generator of stir_gen.h keeps buckets on a polygon; nothing else to filter
+      if (want_blocks && tries < 30 && scj["geometry"].get<std::string>() != "BlocksOnCylindrical")
+        continue;
+      if (tries < 12 && (scj["ndet"].get<int>() < min_ndet || (want_full_sym && scj["ndet"].get<int>() % 8 != 0)))
+        continue;
+      if (want_full_sym)
+        scj["tilt"] = 0.;
       sc = vg::make_scanner(scj);
       if (sc->check_consistency() == Succeeded::yes)
         break;
     }
+  if (!sc)
+    sc = vg::make_scanner(scj);
   c["scanner"] = scj;
   vg::PdiOpts po;
   po.allow_arccorr = true;
@@ -737,6 +930,19 @@ gen(Src& s, int size)
   for (int tries = 0; tries < 30; ++tries)
     {
       pj = vg::gen_pdi(s, *sc, po);
+      if (want_full_sym && scj["geometry"].get<std::string>() == "Cylindrical")
+        {
+          if (pj["views"].get<int>() % 4 != 0)
+            pj["views"] = scj["ndet"].get<int>() / 2;
+          if (s.chance(3, 4))
+            pj["tof_mash"] = 0;
+        }
+      if (siddon_bias)
+        pj["arccorr"] = pj["arccorr"].get<bool>() && s.coin();
+      // blocks geometries: get_s/get_LOR go through ProjDataInfoCylindrical::get_ring_pair_for_segment_axial_pos_num, which
+      // error()s "does not work for data with axial compression" -> every row request fails for span > 1 (kept 1 in 20 as a rejected class)
+      if (scj["geometry"].get<std::string>() == "BlocksOnCylindrical" && pj["span"].get<int>() > 1 && s.chance(19, 20))
+        pj["span"] = 1;
       const long ntof = pj["tof_mash"].get<int>() > 0 ? sc->get_max_num_timing_poss() / pj["tof_mash"].get<int>() : 1;
       const long rings = sc->get_num_rings();
       const long sinos = rings * rings; // upper bound for the number of (segment, axial position) pairs
@@ -760,6 +966,14 @@ gen(Src& s, int size)
       im["nx"] = std::max(im["nx"].get<int>(), int(s.range(13, 21)));
       im["ny"] = std::max(im["ny"].get<int>(), s.coin() ? im["nx"].get<int>() : int(s.range(13, 21)));
     }
+  if (siddon_bias)
+    {
+      im["z_div"] = s.coin() ? 1 : 2;
+      im["vx_rel"] = s.pick(std::vector<double>{ 1., 1.5, 2. });
+      im["vy_same"] = true;
+      im["nx"] = std::max(im["nx"].get<int>(), 9);
+      im["ny"] = im["nx"];
+    }
   c["image"] = im;
   json sym = json::array();
   const int mode = int(s.range(0, 5));
@@ -770,6 +984,15 @@ gen(Src& s, int size)
   c["lors"] = int(s.small(1, 3));
   c["cyl_fov"] = s.chance(3, 4);
   c["interp"] = { { "pli", s.coin() }, { "exact_jac", s.coin() } };
+  if (!no_exclude() && in_known_class(c))
+    c["lors"] = 1; // known finding C04-F1: excluded by construction
+  if (!no_exclude() && in_known_class_2(c))
+    { // known finding C04-F2: excluded by construction (either a square image or the 90-degree symmetry off)
+      if (s.coin())
+        c["image"]["ny"] = c["image"]["nx"];
+      else
+        c["sym"][0] = 0;
+    }
   c["seed_x"] = s.seed64() & 0xffffffffffffULL;
   c["seed_y"] = s.seed64() & 0xffffffffffffULL;
   c["a"] = s.nice_real(-3., 3.);
@@ -801,6 +1024,7 @@ the_property()
   p.gen = gen;
   p.check = check;
   p.nontrivial = nontrivial;
+  p.known_signature = known_signature;
   p.rule = "num_subsets > 1 or at least one sub-range call or related-viewgram groups of size > 1; x, y random signed (non-zero)";
   return p;
 }
